@@ -40,3 +40,11 @@ pub fn f9() -> u32 {
     m.get("a").map(|v| v.len() as u32).unwrap_or(0)
 }
 pub fn f10(a: &mut Vec<u32>, b: &mut Vec<u32>) -> usize { std::mem::swap(a, b); a.len() }
+#[derive(Default, Clone)]
+pub struct Conf { pub name: String, pub n: u32, pub tags: Vec<String>, pub opt: Option<u32> }
+pub enum Shape { Circle { r: u32 }, Rect { w: u32, h: u32 }, Dot }
+pub fn f11() -> usize { let c = Conf::default(); let v = vec![7u32; 3]; c.tags.len() + v.len() + c.n as usize }
+pub fn f12(k: u32) -> u32 {
+    let s = if k == 0 { Shape::Dot } else if k == 1 { Shape::Circle { r: 2 } } else { Shape::Rect { w: 2, h: 5 } };
+    match s { Shape::Dot => 0, Shape::Circle { r } => r * r, Shape::Rect { w, h } => w * h }
+}
